@@ -341,62 +341,107 @@ int main(int argc, char** argv) {
 
 // ---------------------------------------------------------------------------
 // api mode: black-box sessions on deployed stock schemas.
-// stdin, one case per line:  <schema> <options: a=1,b=0 | -> <input keys> <nops> <op>*
-//   ops: x | h i | o i | v 0/1 | i from n | NP | PP | NC | PC
-// stdout per case: "PS <page size> ; <obs> ; ... ; LC <n> <idx=cps:hexcomment>* ; ND <0/1>"
-//   where LC is the whole list read by the iterator in a *fresh* session with the same
-//   schema, options and input (items carry text and hex-encoded comment).
-struct ApiSess { RimeSessionId a = 0, b = 0; };
-
+// stdin, one case per line:  <schema> <options: a=1,b=0 | -> <input keys | =text for set_input> <nops> <op>*
+//   reading ops : x | h i | o i | v 0/1 | i from n | NP | PP | NC | PC
+//   state ops   : C n (set_caret_pos) | KH (Home, sent only while nothing past index 0 is highlighted) | KL | KR
+//                 | O name 0/1 (set_option while composing)
+// A state op starts a new "epoch".  stdout per case: "PS <page size> ; E ... ; <obs> ; ..." where each reading op
+// gives one observation and the initial state and every state op give
+//   E <caret of the session> <caret of the reference> <n> <idx=cps:hexcomment>*
+// = the whole list read by the iterator in a BRAND-NEW session brought to the same schema, options, input and
+// state ops without any reading in between (the reference for that epoch).
 static std::string item_hex(size_t idx, const char* text, const char* comment) {
   return std::to_string(idx) + "=" + cps_of(text ? text : "") + ":" + (comment && *comment ? hex(std::string(comment)) : "-");
 }
 
-static bool type_input(RimeApi* api, RimeSessionId s, const std::string& keys) {
+static RimeSessionId open_session(RimeApi* api, const std::string& schema, const std::string& opts) {
+  RimeSessionId s = api->create_session();
+  if (!api->select_schema(s, schema.c_str())) { fprintf(stderr, "select_schema %s failed\n", schema.c_str()); exit(4); }
+  if (opts != "-") {
+    std::stringstream os(opts);
+    std::string kv;
+    while (std::getline(os, kv, ',')) {
+      size_t eq = kv.find('=');
+      api->set_option(s, kv.substr(0, eq).c_str(), kv.substr(eq + 1) == "1" ? True : False);
+    }
+  }
+  return s;
+}
+
+static void type_input(RimeApi* api, RimeSessionId s, const std::string& keys) {
   api->clear_composition(s);
+  if (!keys.empty() && keys[0] == '=') { api->set_input(s, keys.c_str() + 1); return; }
   for (char ch : keys) api->process_key(s, (unsigned char)ch, 0);
-  return true;
+}
+
+static size_t selected_of(RimeSessionId s) {
+  Context* ctx = Service::instance().GetSession(s)->context();
+  return ctx->composition().empty() ? 0 : ctx->composition().back().selected_index;
+}
+
+// returns false when the op was not applied (Home while something past index 0 is highlighted)
+static bool apply_state_op(RimeApi* api, RimeSessionId s, const std::vector<std::string>& op) {
+  if (op[0] == "C") { api->set_caret_pos(s, atol(op[1].c_str())); return true; }
+  if (op[0] == "KH") { if (selected_of(s) != 0) return false; api->process_key(s, 0xff50, 0); return true; }
+  if (op[0] == "KL") { api->process_key(s, 0xff51, 0); return true; }
+  if (op[0] == "KR") { api->process_key(s, 0xff53, 0); return true; }
+  if (op[0] == "O") { api->set_option(s, op[1].c_str(), op[2] == "1" ? True : False); return true; }
+  return false;
+}
+
+static std::string reference(RimeApi* api, RimeSessionId main, const std::string& schema, const std::string& opts,
+                             const std::string& keys, const std::vector<std::vector<std::string>>& state_ops) {
+  RimeSessionId f = open_session(api, schema, opts);
+  type_input(api, f, keys);
+  for (auto& op : state_ops) apply_state_op(api, f, op);
+  std::string items;
+  size_t n = 0;
+  RimeCandidateListIterator it = {0};
+  if (api->candidate_list_begin(f, &it)) {
+    while (api->candidate_list_next(&it)) {
+      items += " " + item_hex(it.index, it.candidate.text, it.candidate.comment);
+      ++n;
+    }
+    api->candidate_list_end(&it);
+  }
+  std::string r = "E " + std::to_string(api->get_caret_pos(main)) + " " + std::to_string(api->get_caret_pos(f)) + " " +
+                  std::to_string(n) + items;
+  api->destroy_session(f);
+  return r;
 }
 
 int api_mode(const std::string& work) {
   Env env;
   if (!env.start(work + "/shared", work + "/user", false)) return 3;
   RimeApi* api = env.api;
-  std::map<std::string, ApiSess> sessions;
   std::string line;
   while (std::getline(std::cin, line)) {
     Tok tk;
     { std::stringstream ss(line); std::string x; while (ss >> x) tk.t.push_back(x); }
     if (tk.t.empty()) continue;
     std::string schema = tk.next(), opts = tk.next(), keys = tk.next();
-    std::string skey = schema + "|" + opts;
-    if (!sessions.count(skey)) {
-      ApiSess as;
-      as.a = api->create_session();
-      as.b = api->create_session();
-      for (RimeSessionId s : {as.a, as.b}) {
-        if (!api->select_schema(s, schema.c_str())) { fprintf(stderr, "select_schema %s failed\n", schema.c_str()); return 4; }
-        if (opts != "-") {
-          std::stringstream os(opts);
-          std::string kv;
-          while (std::getline(os, kv, ',')) {
-            size_t eq = kv.find('=');
-            api->set_option(s, kv.substr(0, eq).c_str(), kv.substr(eq + 1) == "1" ? True : False);
-          }
-        }
-      }
-      sessions[skey] = as;
-    }
-    RimeSessionId sid = sessions[skey].a, fresh = sessions[skey].b;
+    RimeSessionId sid = open_session(api, schema, opts);
     type_input(api, sid, keys);
-    Context* ctx = Service::instance().GetSession(sid)->context();
     Schema* sch = Service::instance().GetSession(sid)->schema();
-    std::string out = "PS " + std::to_string(sch ? sch->page_size() : 5) + " ; ";
+    std::vector<std::vector<std::string>> state_ops;
+    std::string out = "PS " + std::to_string(sch ? sch->page_size() : 5) + " ; " +
+                      reference(api, sid, schema, opts, keys, state_ops) + " ; ";
     long nops = tk.num();
     for (long k = 0; k < nops && tk.ok; ++k) {
       std::string o = tk.next();
       std::ostringstream r;
-      if (o == "x") {
+      Context* ctx = Service::instance().GetSession(sid)->context();
+      if (o == "C" || o == "KH" || o == "KL" || o == "KR" || o == "O") {
+        std::vector<std::string> op{o};
+        if (o == "C") op.push_back(tk.next());
+        if (o == "O") { op.push_back(tk.next()); op.push_back(tk.next()); }
+        if (apply_state_op(api, sid, op)) {
+          state_ops.push_back(op);
+          r << reference(api, sid, schema, opts, keys, state_ops);
+        } else {
+          r << "1 0 " << selected_of(sid);
+        }
+      } else if (o == "x") {
         RIME_STRUCT(RimeContext, rc);
         api->get_context(sid, &rc);
         if (!rc.menu.candidates && rc.menu.num_candidates == 0 && rc.menu.page_size == 0) r << "0 0 0";
@@ -431,32 +476,12 @@ int api_mode(const std::string& work) {
         if (ctx->composition().empty()) r << "COMPOSITION-LOST";
         else r << "1 0 " << ctx->composition().back().selected_index;
       } else { tk.ok = false; }
-      out += r.str() + " ; ";
+      out += r.str() + (k + 1 < nops ? " ; " : "");
     }
+    api->destroy_session(sid);
     if (!tk.ok) { std::cout << "BADLINE ops\n"; continue; }
-    // the reference: a fresh session, same schema/options/input, whole list by the iterator
-    type_input(api, fresh, keys);
-    {
-      RimeCandidateListIterator it = {0};
-      std::string items;
-      size_t n = 0;
-      std::set<std::string> seen;
-      bool nodup = true;
-      if (api->candidate_list_begin(fresh, &it)) {
-        while (api->candidate_list_next(&it)) {
-          items += " " + item_hex(it.index, it.candidate.text, it.candidate.comment);
-          if (!seen.insert(it.candidate.text).second) nodup = false;
-          ++n;
-        }
-        api->candidate_list_end(&it);
-      }
-      out += "LC " + std::to_string(n) + items + " ; ND " + (nodup ? "1" : "0");
-    }
-    api->clear_composition(sid);
-    api->clear_composition(fresh);
     std::cout << out << "\n";
   }
-  for (auto& kv : sessions) { api->destroy_session(kv.second.a); api->destroy_session(kv.second.b); }
   env.stop();
   return 0;
 }
